@@ -675,3 +675,10 @@ Example C19_ex_loaded_b :
   /\ c19_loaded_doc_b (toy_doc (toy_leaf 1 None "clash with the key's identity")) 10 = true  (* keys are not value positions *)
   /\ c19_loaded_doc_b (NSeq (mkinfo 0 None true None) [toy_leaf 1 (Some "x") "a"; toy_leaf 2 (Some "x") "b"]) 3 = false. (* one anchor, two objects *)
 Proof. vm_compute. repeat split. Qed.
+
+(* Every remaining statement of this file, so that none is left unaudited. *)
+Print Assumptions C19_rekeyed_refuted_trailing_space.
+Print Assumptions C19_rekeyed_refuted_marker_plaintext.
+Print Assumptions toy3_keys_differ.
+Print Assumptions nest_laws.
+Print Assumptions nest_loaded.
